@@ -92,6 +92,11 @@ prop("C04",
  "Trusted: encoding/json renders json.Number verbatim and strings faithfully (HTML escaping is a semantically identical re-encoding); orderedmap.Set keeps the position of an existing key.",
  "receiver-provenance classification of all mutators on the line path against a writer table, dominance checks, table reconstruction, parser/serialiser loop-shape analysis", "DESIGN.md section 3, C04")
 
+prop("C02",
+ "Absence of explicit and implicit flows from sensitive leaves to the output in placeholder mode, decided inside the package by a use classification over SSA: every (instruction, operand) pair whose operand has input provenance in the walker functions (about 420 uses) must be of an enumerated kind - type/nil test, container traversal, the leading-'$' test, hand-over to a walker / scalar step / choke point / e-mail classifier, output store or return (raw pass-through, judged by C01-R2), pseudonymisation or table lookup of a '$' field path or a FieldName/Namespace position, byte conversion for the encryption call, or anything dominated by the selective-mode / encrypt-mode switch; length, slicing, indexing, hashing, formatting, comparisons with constants or other values, Go-map keys, stores to package state and appends to key paths are reported. Branch conditions are computed by such uses, so implicit flows are covered; the e-mail classifier may look at the value only through constant length bounds and the constant pattern, its verdict only steers a branch; key-context placeholders ($date/$oid/$binary) are chosen before any content test; every non-raw result of the scalar step is a constant / the replacement text / the choke point over those; the pseudonym side table is write-only. Level 'other': a one-run dataflow argument for a two-run property; flows through the standard library and timing are not decided.",
+ "Trusted: go/ssa; library calls are pure functions of their arguments; json.Marshal of a constant is constant. Context-insensitive provenance: a use is judged by the union of everything that can reach it (sound for rejection, may over-report on restructured code).",
+ "provenance dataflow + exhaustive use classification with guard atoms (explicit and implicit flows), CFG reachability query for class precedence, return-value classification", "DESIGN.md section 3, C02")
+
 ALL = ["C%02d" % i for i in range(1, 21)]
 checks = []
 for pid in ALL:
